@@ -62,6 +62,10 @@ def client_method(rpc):
     return snake(rpc) + ("_" if rpc.lower() in keyword.kwlist else "")
 
 
+def _sn(n):
+    return snake(n)
+
+
 def program_diff():
     fdps = [fb.f for fb in apis.samples_api()]
     g = gen.generate(apis.samples_api(), parameter="transport=grpc+rest")
@@ -77,6 +81,12 @@ def program_diff():
     md_by_tag = {s["regionTag"]: s for s in metadata.get("snippets", [])}
     srcs = {svc.name: (g.text(f"services/{svc.name.lower()}/client.py"), g.text(f"services/{svc.name.lower()}/async_client.py"))
             for svc in fdps[0].service}
+    srcs_by_file = {}
+    for name in samples:
+        low = os.path.basename(name)
+        for svc_name, pair in srcs.items():
+            if f"_generated_{_sn(svc_name)}_" in low:
+                srcs_by_file[name] = pair
     for name, text in samples.items():
         try:
             tree = ast.parse(text)
@@ -119,6 +129,29 @@ def program_diff():
                                                                      f"{var_type[cur.id]} has no such field path")
                             break
                         t = idx[t][seg]
+        # asyncio samples: a client method that is `async def` returns a coroutine -- the sample has to await it (directly,
+        # or through the name it was assigned to) before using the result; a sync sample never awaits
+        is_async_sample = name.endswith("_async.py")
+        svc_for_calls = os.path.basename(name).split("_generated_")[1].split("_")[0] if "_generated_" in name else None
+        if is_async_sample:
+            acls = [c for c in ast.parse(srcs_by_file[name][1]).body if isinstance(c, ast.ClassDef) and c.name.endswith("AsyncClient")]
+            coro = {f.name for c in acls for f in c.body if isinstance(f, ast.AsyncFunctionDef)}
+            awaited_calls, awaited_names = set(), set()
+            for node in ast.walk(fn):
+                if isinstance(node, ast.Await):
+                    for sub in ast.walk(node.value):
+                        if isinstance(sub, ast.Call):
+                            awaited_calls.add(id(sub))
+                        if isinstance(sub, ast.Name):
+                            awaited_names.add(sub.id)
+            for node in ast.walk(fn):
+                if isinstance(node, ast.Assign) and isinstance(node.value, ast.Call) and isinstance(node.value.func, ast.Attribute) \
+                        and isinstance(node.value.func.value, ast.Name) and node.value.func.value.id == "client" \
+                        and node.value.func.attr in coro and id(node.value) not in awaited_calls:
+                    tgt = node.targets[0].id if isinstance(node.targets[0], ast.Name) else None
+                    if tgt not in awaited_names:
+                        bad[f"await:{name}"] = (f"client.{node.value.func.attr} is `async def` in the emitted asyncio client; the sample "
+                                                f"uses its result `{tgt}` without awaiting the call")
         # one member of each oneof populated (never two)
         for var, fields_ in populated.items():
             for oname, members in oneofs.get(var_type[var], {}).items():
